@@ -4,7 +4,8 @@ pid=$1; diff=$2; tier=${3:-quick}
 cd /repo || exit 2
 git diff --quiet || { echo "/repo not clean"; exit 2; }
 git apply "$diff" || { echo "patch does not apply"; exit 2; }
-cd /verif && ./check "$pid" "$tier" 2>&1 | tail -6
+cd /verif && ./check "$pid" "$tier" > /tmp/try_mutant.out 2>&1
 rc=$?
+tail -6 /tmp/try_mutant.out
 git -C /repo checkout -- . && git -C /repo clean -fdq
 echo "exit=$rc"
